@@ -257,7 +257,7 @@ Definition expected_server_accept_conn : list gstmt :=
       GIf "s.Logger != nil" [
         GOther "s.Logger.Printf('client %v login error: %v',conn.Socket.RemoteAddr(),err)" ] [];
       GReturn "" ] [];
-    GOther "s.AcceptConfig(conn)";
+    GOther "err = s.AcceptConfig(conn)";
     GIf "err != nil" [
       GOther "var configErr ConfigFailErr";
       GIf "errors.As(err,&configErr)" [
@@ -364,4 +364,75 @@ Definition expected_server_accept_config : list gstmt :=
       GReturn "err" ] [];
     GIf "packetid.ServerboundPacketID(p.ID) == packetid.ServerboundConfigFinishConfiguration" [
       GReturn "nil" ] [] ] ].
+
+(* bot/event.go: Events.AddListener *)
+Definition expected_bot_add_listener : list gstmt :=
+  [
+    GRange "_,l := range listeners" [
+    GIf "l.ID < 0 || int(l.ID) >= len(e.handlers)" [
+      GOther "panic('Invalid packet ID (' + strconv.Itoa(int(l.ID)) + ')')" ] [];
+    GIf "s := e.handlers[l.ID]; s == nil" [
+      GOther "e.handlers[l.ID] = []PacketHandler{l}" ] [
+      GOther "e.handlers[l.ID] = append(s,l)";
+      GOther "sortPacketHandlers(e.handlers[l.ID])" ] ] ].
+
+(* bot/event.go: Events.AddGeneric *)
+Definition expected_bot_add_generic : list gstmt :=
+  [
+    GOther "e.generic = append(e.generic,listeners...)";
+    GOther "sortPacketHandlers(e.generic)" ].
+
+(* bot/event.go: sortPacketHandlers *)
+Definition expected_bot_sort_packet_handlers : list gstmt :=
+  [
+    GOther "sort.SliceStable(slice,func(i,j int) bool { return slice[i].Priority > slice[j].Priority })" ].
+
+(* bot/ingame.go: Client.HandleGame *)
+Definition expected_bot_handle_game : list gstmt :=
+  [
+    GLoop [
+    GOther "var p pk.Packet";
+    GRead;
+    GIf "err != nil" [
+      GReturn "err" ] [];
+    GIf "p.ID == int32(packetid.BundleDelimiter)" [
+      GOther "err := c.handleBundlePackets()";
+      GIf "err != nil" [
+        GReturn "err" ] [] ] [
+      GOther "err := c.handlePacket(p)";
+      GIf "err != nil" [
+        GReturn "err" ] [];
+      GOther "c.Conn.pool.Put(p.Data)" ] ] ].
+
+(* bot/ingame.go: Client.handleBundlePackets *)
+Definition expected_bot_handle_bundle_packets : list gstmt :=
+  [
+    GOther "var packets []pk.Packet";
+    GLoopN 4096%Z [
+    GOther "var p pk.Packet";
+    GRead;
+    GIf "err != nil" [
+      GReturn "err" ] [];
+    GIf "p.ID == int32(packetid.BundleDelimiter)" [
+      GBranch "goto handlePackets" ] [];
+    GOther "packets = append(packets,p)" ];
+    GReturn "errors.New('packet number of a bundle out of limit')";
+    GLabel "handlePackets";
+    GRange "i := range packets" [
+    GIf "err := c.handlePacket(packets[i]); err != nil" [
+      GReturn "err" ] [] ];
+    GReturn "nil" ].
+
+(* bot/ingame.go: Client.handlePacket *)
+Definition expected_bot_handle_packet : list gstmt :=
+  [
+    GOther "packetID := packetid.ClientboundPacketID(p.ID)";
+    GRange "_,handler := range c.Events.generic" [
+    GIf "err = handler.F(p); err != nil" [
+      GReturn "PacketHandlerError{ID:packetID,Err:err}" ] [] ];
+    GRange "_,handler := range c.Events.handlers[packetID]" [
+    GOther "err = handler.F(p)";
+    GIf "err != nil" [
+      GReturn "PacketHandlerError{ID:packetID,Err:err}" ] [] ];
+    GReturn "" ].
 
